@@ -140,6 +140,17 @@ func VerifH_v6_alloc() {
 	idx := vnd.U128Lshr(vnd.U128Sub(g, base), uint(128-page))
 	vnd.Assert(idx.Hi == 0, "C05 v6 block index fits")
 	i := idx.Lo
+	if ipform == 2 {
+		// C07 first, on the returned address itself (the checks below are cut off when the result is not a block of the pool)
+		if vnd.U128Eq(vnd.U128And(h, vnd.U128Not(lowMask(128-L))), base) {
+			hi0 := vnd.U128Lshr(vnd.U128Sub(h, base), uint(128-page)).Lo
+			vnd.Assume(hi0 < uint64(n))
+			if !hbit(pre, hi0) {
+				want := vnd.U128Add(base, vnd.U128Shl(vnd.U128FromU64(hi0), uint(128-page)))
+				vnd.Assert(vnd.U128Eq(g, want), "C07 v6 a hint inside a free block is answered with exactly that block's base address")
+			}
+		}
+	}
 	vnd.Assume(i < uint64(n))
 	vnd.Assert(!hbit(pre, i), "C04 v6 allocated block was free")
 	vnd.Assert(hsameExcept(post, pre, i, true, true), "C04 v6 exactly the allocated block becomes outstanding")
@@ -171,13 +182,13 @@ func VerifH_v6_alloc() {
 	vnd.Observe("prefix", got.IP, ones)
 }
 
-// VerifH_v6_free: one Free of any well-formed IPv6 prefix (mask length >= the
-// allocation length) at any position relative to the pool (O3).
+// VerifH_v6_free: one Free of any IPv6 prefix with a canonical mask (any length:
+// sub-prefixes of a block, blocks, prefixes larger than a block) at any position
+// relative to the pool (O3).
 func VerifH_v6_free() {
 	a, pre, base, L, page, n := v6State()
 	pb := vnd.Bytes("prefix", 16)
 	pl := vnd.Pick("plen", 0, 128)
-	vnd.Assume(pl >= page)
 	p := vnd.U128From(pb)
 
 	vnd.Share("alloc6", a)
@@ -193,6 +204,13 @@ func VerifH_v6_free() {
 	vnd.AssertEngine(vnd.HeldLocks() == 0, "C16 v6 allocator lock released")
 	if vnd.Symbolic() {
 		vnd.AssertEngine(vnd.Acquisitions(&a.l) <= 1, "C16 one allocator call is one critical section")
+	}
+	if pl < page {
+		// a prefix larger than one allocation is not a block nor part of one
+		vnd.Cover("larger-than-a-block")
+		vnd.AssertFinding("C06-v6-free-larger-than-a-block", err != nil, "C06 v6 free of a prefix larger than an allocation fails")
+		vnd.AssertFinding("C06-v6-free-larger-than-a-block", hsameExcept(post, pre, 0, false, false), "C06 v6 free of a prefix larger than an allocation changes nothing")
+		return
 	}
 	inPool := vnd.U128Eq(vnd.U128And(p, vnd.U128Not(lowMask(128-L))), base)
 	if inPool {
